@@ -306,7 +306,7 @@ fn case<T: PivRing>(ctx: &mut Ctx, rng: &mut Rng) where for<'x> &'x T: RingOps<T
 }
 
 pub fn run(ctx: &mut Ctx) {
-    let n = ctx.by_tier(24_000u64, 1_000_000);
+    let n = ctx.by_tier(96_000u64, 1_000_000);
     ctx.random_cases("i64", n * 2, |c, r| case::<i64>(c, r));
     ctx.random_cases("Ratio<i64>", n, |c, r| case::<Ratio<i64>>(c, r));
     ctx.random_cases("FF<3>", n / 2, |c, r| case::<FF<3>>(c, r));
